@@ -1372,6 +1372,128 @@ theorem delivered (S : Replay e ops certs votes rops) (c : Cert) (hc : c ∈ cer
     cases e''
     exact logged_agree S.cons.safe (S.certs_logged c hc) (S.certs_logged c' hc'') hs hk (Or.inr k)
 
+/-- the receiver's finality tracker, with its run invariant -/
+theorem recv_runInv (S : Replay e ops certs votes rops) :
+    ∃ fevs, Finality.RunInv (finOps (poolLog { epoch := e } rops)) (poolRun { epoch := e } rops).1.fin fevs := by
+  obtain ⟨_, hcons, hheld, _⟩ := S.recv_prefix (List.prefix_refl rops)
+  exact wired_runInv hheld.wired hcons.safe
+
+theorem recv_cons (S : Replay e ops certs votes rops) : Consistent (poolLog { epoch := e } rops) :=
+  (S.recv_prefix (List.prefix_refl rops)).2.1
+
+/-- a block that is finalized in the receiver's history is at or below its `highest_finalized_slot` -/
+theorem recv_final_le (S : Replay e ops certs votes rops) {b : Nat × Nat}
+    (hb : Finality.Final (finOps (poolLog { epoch := e } rops)) b) : b.1 ≤ (poolRun { epoch := e } rops).1.fin.highest := by
+  obtain ⟨fq, rq⟩ := S.recv_runInv
+  exact final_le_highest S.recv_cons.safe rq hb
+
+/-- a bundled fast-finalization certificate finalizes its slot at the receiver -/
+theorem recv_ff (S : Replay e ops certs votes rops) (c : Cert) (hc : c ∈ certs) (hk : c.kind = .ff)
+    (h1 : (poolRun { epoch := e } ops).1.fin.highest ≤ c.slot) (h2 : c.slot < 2 * Gen.SLOTS_PER_EPOCH) :
+    Finality.Final (finOps (poolLog { epoch := e } rops)) (c.slot, c.hash) := by
+  obtain ⟨c', hm, hk', hs', hh'⟩ := S.delivered c hc h1 h2
+  have := mem_finOps_ff hm (hk'.trans hk)
+  rw [hs', hh' (Or.inr (Or.inr hk))] at this
+  exact .direct (Or.inl this)
+
+/-- bundled finalization + notarization certificates of one slot finalize it at the receiver -/
+theorem recv_fin_notar (S : Replay e ops certs votes rops) (cf cn : Cert) (hcf : cf ∈ certs) (hcn : cn ∈ certs)
+    (hkf : cf.kind = .final) (hkn : cn.kind = .notar) (hs : cf.slot = cn.slot)
+    (h1 : (poolRun { epoch := e } ops).1.fin.highest ≤ cn.slot) (h2 : cn.slot < 2 * Gen.SLOTS_PER_EPOCH) :
+    Finality.Final (finOps (poolLog { epoch := e } rops)) (cn.slot, cn.hash) := by
+  obtain ⟨c1, hm1, hk1, hs1, _⟩ := S.delivered cf hcf (by rw [hs]; exact h1) (by rw [hs]; exact h2)
+  obtain ⟨c2, hm2, hk2, hs2, hh2⟩ := S.delivered cn hcn h1 h2
+  have a := mem_finOps_final hm1 (hk1.trans hkf)
+  have b := mem_finOps_notar hm2 (hk2.trans hkn)
+  rw [hs1, hs] at a
+  rw [hs2, hh2 (Or.inl hkn)] at b
+  exact .direct (Or.inr ⟨a, Or.inr b⟩)
+
+theorem getFinalCerts_ff {p : Pool} {s : Nat} {st : SlotState} {c : Cert} (hg : p.getSlot s = some st)
+    (hf : st.cFf = some c) : p.getFinalCerts s = [c] := by
+  unfold Pool.getFinalCerts; rw [hg]; simp only [hf]
+
+theorem getFinalCerts_fn {p : Pool} {s : Nat} {st : SlotState} {cf cn : Cert} (hg : p.getSlot s = some st)
+    (hff : st.cFf = none) (hf : st.cFin = some cf) (hn : st.cNotar = some cn) : p.getFinalCerts s = [cf, cn] := by
+  unfold Pool.getFinalCerts; rw [hg]; simp only [hff, hf, hn]
+
+/-- **the sender's bundle proves its finalized slot to the receiver**: the block finalized in the sender's highest
+    finalized slot (if it is not genesis) is finalized in the receiver's history -/
+theorem recv_reaches (S : Replay e ops certs votes rops) (hpos : 0 < (poolRun { epoch := e } ops).1.fin.highest) :
+    ∃ h, Finality.Final (finOps (poolLog { epoch := e } rops)) ((poolRun { epoch := e } ops).1.fin.highest, h) := by
+  have hheld := S.sender_held S.cons
+  obtain ⟨fp, rp⟩ := wired_runInv hheld.wired S.cons.safe
+  have hfirst := rp.inv.first_le
+  rcases rp.hiAtt with h0 | ⟨b, hb, hbe⟩
+  · omega
+  have hd := final_top_direct S.cons.safe hb (fun c hc => by rw [hbe]; exact final_le_highest S.cons.safe rp hc)
+  have hcontents := (recover_contents _ certs votes S.bundle).1
+  -- the slot state of the finalized slot
+  have key : ∀ st, (poolRun { epoch := e } ops).1.getSlot b.1 = some st →
+      (∀ c', st.cFf = some c' → ∃ h, Finality.Final (finOps (poolLog { epoch := e } rops)) (b.1, h)) ∧
+      (st.cFf = none → ∀ cf cn, st.cFin = some cf → st.cNotar = some cn →
+        ∃ h, Finality.Final (finOps (poolLog { epoch := e } rops)) (b.1, h)) := by
+    intro st hg
+    have hm := getSlot_mem _ _ _ hg
+    obtain ⟨⟨w1, _, _, w4, w5⟩, _⟩ := S.sender_hl st hm.1
+    constructor
+    · intro c' hc'
+      have hin : c' ∈ certs := (hcontents c').mpr (Or.inl (by rw [← hbe, getFinalCerts_ff hg hc']; simp))
+      have hsl : c'.slot = b.1 := (w4 c' hc').2.trans hm.2
+      have := S.recv_ff c' hin (w4 c' hc').1 (by rw [hsl, hbe]; exact Nat.le_refl _) (by rw [hsl, hbe]; exact S.far)
+      rw [hsl] at this
+      exact ⟨_, this⟩
+    · intro hff cf cn hcf hcn
+      have hl : (poolRun { epoch := e } ops).1.getFinalCerts (poolRun { epoch := e } ops).1.fin.highest = [cf, cn] := by
+        rw [← hbe]; exact getFinalCerts_fn hg hff hcf hcn
+      have hin1 : cf ∈ certs := (hcontents cf).mpr (Or.inl (by rw [hl]; simp))
+      have hin2 : cn ∈ certs := (hcontents cn).mpr (Or.inl (by rw [hl]; simp))
+      have hs1 : cf.slot = b.1 := (w5 cf hcf).2.trans hm.2
+      have hs2 : cn.slot = b.1 := (w1 cn hcn).2.trans hm.2
+      have := S.recv_fin_notar cf cn hin1 hin2 (w5 cf hcf).1 (w1 cn hcn).1 (hs1.trans hs2.symm)
+        (by rw [hs2, hbe]; exact Nat.le_refl _) (by rw [hs2, hbe]; exact S.far)
+      rw [hs2] at this
+      exact ⟨_, this⟩
+  rw [← hbe]
+  rcases hd with hfast | ⟨hfin, hnot⟩
+  · obtain ⟨c0, hm0, hk0, he0⟩ := mem_finOps_ff_inv hfast
+    have hs0 : c0.slot = b.1 := congrArg Prod.fst he0
+    obtain ⟨st, hg, hk⟩ := hheld.logHeld c0 hm0 (by rw [hs0, hbe]; exact hfirst)
+    rw [hs0] at hg
+    unfold HeldKey at hk
+    rw [hk0] at hk
+    obtain ⟨c', hc', _⟩ := hk
+    exact (key st hg).1 c' hc'
+  · obtain ⟨c1, hm1, hk1, hs1⟩ := mem_finOps_final_inv hfin
+    have hnot' : Finality.Op.notar b ∈ finOps (poolLog { epoch := e } ops) := by
+      rcases hnot with h0 | h0
+      · rw [h0] at hbe; simp at hbe; omega
+      · exact h0
+    obtain ⟨c2, hm2, hk2, he2⟩ := mem_finOps_notar_inv hnot'
+    have hs2 : c2.slot = b.1 := congrArg Prod.fst he2
+    obtain ⟨st, hg, hkk⟩ := hheld.logHeld c1 hm1 (by rw [hs1, hbe]; exact hfirst)
+    obtain ⟨st2, hg2, hkk2⟩ := hheld.logHeld c2 hm2 (by rw [hs2, hbe]; exact hfirst)
+    rw [hs1] at hg
+    rw [hs2, hg] at hg2
+    cases hg2
+    unfold HeldKey at hkk hkk2
+    rw [hk1] at hkk
+    rw [hk2] at hkk2
+    obtain ⟨cn, hcn, _⟩ := hkk2
+    obtain ⟨cf, hcf⟩ := Option.isSome_iff_exists.mp hkk
+    cases hff : st.cFf with
+    | some c' => exact (key st hg).1 c' hff
+    | none => exact (key st hg).2 hff cf cn hcf hcn
+
+/-- **`bundle_replay_finalized`, core**: the receiver reaches exactly the sender's highest finalized slot -/
+theorem finalized (S : Replay e ops certs votes rops) :
+    (poolRun { epoch := e } rops).1.fin.highest = (poolRun { epoch := e } ops).1.fin.highest := by
+  apply Nat.le_antisymm (S.recv_highest_le (List.prefix_refl rops))
+  rcases Nat.eq_zero_or_pos (poolRun { epoch := e } ops).1.fin.highest with h0 | hpos
+  · omega
+  · obtain ⟨h, hf⟩ := S.recv_reaches hpos
+    exact S.recv_final_le hf
+
 end Replay
 
 end AgModel.Pool
